@@ -30,8 +30,20 @@ def tables():
     return _LEAF, _SAFE, _PANIC_API
 
 
+PANIC_ENTRIES = ("std::panicking::begin_panic", "std::rt::begin_panic", "core::panicking::panic", "core::panicking::assert_failed",
+                 "core::option::unwrap_failed", "core::option::expect_failed", "core::result::unwrap_failed",
+                 "std::panicking::rust_panic_with_hook", "std::panicking::panic_with_hook")
+
+
+def is_panic_entry(inst):
+    """functions that start a panic; treated as PANIC leaves even when the sysroot ships their (generic) MIR"""
+    d = inst.defp
+    return any(d.startswith(p) for p in PANIC_ENTRIES) and not d.startswith("core::panicking::panic_nounwind") \
+        and not d.startswith("core::panicking::panic_cannot_unwind")
+
+
 def is_leaf(inst):
-    return inst.body is None and inst.kind != "virtual"
+    return (inst.body is None and inst.kind != "virtual") or is_panic_entry(inst)
 
 
 def norm(p):
@@ -45,6 +57,8 @@ def norm(p):
 def classify(inst):
     """class of a leaf instance: (CLASS, note)"""
     leaf, safe, _ = tables()
+    if is_panic_entry(inst):
+        return "PANIC", "panic entry point"
     if inst.kind == "intrinsic":
         if inst.defp.endswith("::abort"):
             return "TERM", "abort intrinsic"
@@ -87,7 +101,8 @@ class Cone:
     def __init__(self, F, roots, stop=None):
         self.F = F
         self.roots = roots
-        self.parent = F.reach(roots, stop=stop or (lambda i: False))
+        st = stop or (lambda i: False)
+        self.parent = F.reach(roots, stop=lambda i: is_panic_entry(i) or st(i))
         self.members = [F.inst[i] for i in self.parent]
         self.leaves = {}
         self.indirect = []
